@@ -203,8 +203,7 @@ Section WithCrypto.
     let v := refund_of g (x_caller c) tok nonce in
     let g' := set_refund g (x_caller c) tok nonce 0 in
     if v =? 0 then Some ({| w_gw := w_gw w; w_gov := g'; w_led := w_led w; w_pend := w_pend w; w_next := w_next w |}, []) else
-    if negb (nonce =? 0) then None else
-    match transfer (w_led w) (x_self c) (x_caller c) tok v with
+    match transfer (w_led w) (x_self c) (x_caller c) (ltok tok nonce) v with
     | Some l' => Some ({| w_gw := w_gw w; w_gov := g'; w_led := l'; w_pend := w_pend w; w_next := w_next w |}, [])
     | None => None
     end.
